@@ -127,7 +127,7 @@ main(void)
 	size_t i, k;
 	int coA, coB, errA, errB;
 #ifdef NATIVE_REPLAY
-	memset(&ca, 0, sizeof ca); memset(&cb, 0, sizeof cb);
+	NATIVE_FILL(&ca, sizeof ca); NATIVE_FILL(&cb, sizeof cb);
 #endif
 	thc.desc = (uint32_t)H << BR_HASHDESC_OUT_OFF;
 	thc.init = th_init; thc.update = th_update; thc.out = th_out;
